@@ -15,7 +15,8 @@ TRUSTED = ["Coq 8.16.1 kernel + VM", "Go harness dverif connsrv (x/crypto/ssh cl
 ASSUMPTIONS = ["a connection is 'being served' from accept until handleConnection returns (handshake included)",
                "the counter read by the accessor is the one printed in the STATS|currentConnections= log line"]
 
-KINDS = ["key_shell", "key_shell", "key_nochan", "key_chan", "key_2shell", "key_shell_twice", "health", "health_nochan", "badpw", "tcp_only", "tcp_reset"]
+KINDS = ["key_shell", "key_shell", "key_nochan", "key_chan", "key_2shell", "key_shell_twice", "health", "health_nochan", "badpw", "tcp_only", "tcp_reset",
+         "key_exec", "key_pty", "key_env", "key_subsystem"]
 
 
 def gen_history(rng, mx):
